@@ -13,7 +13,7 @@
   The fragment (`frag` / `fragO true`), nested arbitrarily, over environments binding ANY values (scalars,
   lists, maps, nested):
     * null / boolean / integer (within int64) / float / string literals, globals;
-    * variable references WITH ACCESS CHAINS: `$x`, `.k`, `.N`, `[e]` and the null-safe `?.k`, `?[e]`, on maps
+    * variable references and `$ij` WITH ACCESS CHAINS: `$x`, `.k`, `.N`, `[e]` and the null-safe `?.k`, `?[e]`, on maps
       and lists — including the error cases (an access on null / undefined / a scalar, a key on a list, a
       non-integer index) and the values (`undefined` for an absent key or an index past the end, `null`
       for a null-safe LAST access on null / undefined);
@@ -25,8 +25,8 @@
       augmentMap (`Lemmas/FuncRefine.lean`).
 
   Still outside — why the theorems keep `_partial`:
-    * `$ij`, and names ending in a loop's bookkeeping suffix (`x.index`, `x.lastIndex` — no variable name
-      contains a '.', so this excludes nothing a parser produces);
+    * names ending in a loop's bookkeeping suffix (`x.index`, `x.lastIndex` — no variable name contains a
+      '.', so this excludes nothing a parser produces); (`$ij` with its access chains is inside: `EnvRel.ij`)
     * the loop functions index / isFirst / isLast: the specification gives `index($x)` as the integer `i`
       whatever its size, the interpreter keeps it as an int64 — the two differ for a loop over more than
       2^63 items, and the specification's clause is pinned by Props/C04c (`hspec`); it would need a guard
@@ -68,7 +68,7 @@ def fragO (ord : Bool) : Expr → Bool
   | .float _ _ => true
   | .str _ _ _ => true
   | .global _ _ => true
-  | .dataRef _ key acc => key != sIj && !isHelper key && accFrag ord acc
+  | .dataRef _ key acc => (key == sIj || !isHelper key) && accFrag ord acc
   | .not _ a => fragO ord a
   | .neg _ a => fragO ord a
   | .bin op _ a b => opOk ord op && fragO ord a && fragO ord b
@@ -102,6 +102,8 @@ structure EnvRel (m : EEnv) (s : Spec.Eval.Env) : Prop where
   globals : ∀ k, match Frame.find m.globals k with
     | some v => Spec.Eval.find s.globals k = some (absV v)
     | none => Spec.Eval.find s.globals k = none
+  /-- the injected data: present on both sides or on neither, the same bindings -/
+  ij : (m.ij.map fun p => absK p.2) = s.ij
 
 /-- on `e` the model agrees with the specification wherever the specification is defined -/
 def Sim (m : EEnv) (s : Spec.Eval.Env) (e : Expr) : Prop :=
@@ -238,13 +240,35 @@ theorem eval_refines_spec_ord (ord : Bool) (hord : ord = true → OrdExact) : (e
       simp
   | .dataRef _ key acc, hf => by
     intro n
-    simp only [fragO, bne_iff_ne, ne_eq, Bool.and_eq_true, Bool.not_eq_true'] at hf
-    have h1 : (key == sIj) = false := by simpa using hf.1.1
-    have h2 : (key == Spec.Eval.sIj) = false := h1
+    simp only [fragO, Bool.and_eq_true, Bool.or_eq_true, Bool.not_eq_true'] at hf
     rw [Spec.Eval.eval, evalE]
-    simp only [h1, h2, Bool.false_eq_true, if_false]
-    rw [← hr.vars key hf.1.2]
-    exact acc_sim ord hord acc hf.2 (m.lookup key) n
+    by_cases h1 : (key == sIj) = true
+    · have h2 : (key == Spec.Eval.sIj) = true := h1
+      simp only [h1, h2, if_true]
+      have hij := hr.ij
+      cases hm : m.ij with
+      | none =>
+        rw [hm] at hij
+        simp only [Option.map_none] at hij
+        rw [← hij]
+        exact ⟨fun v h => by simp at h, fun _ => rfl⟩
+      | some p =>
+        obtain ⟨id, kvs⟩ := p
+        rw [hm] at hij
+        simp only [Option.map_some] at hij
+        rw [← hij]
+        have := acc_sim ord hord acc hf.2 (.map id kvs) n
+        rw [absV] at this
+        exact this
+    · have h1' : (key == sIj) = false := by simpa using h1
+      have h2 : (key == Spec.Eval.sIj) = false := h1'
+      simp only [h1', h2, Bool.false_eq_true, if_false]
+      have hh : isHelper key = false := by
+        rcases hf.1 with h | h
+        · rw [h] at h1'; cases h1'
+        · exact h
+      rw [← hr.vars key hh]
+      exact acc_sim ord hord acc hf.2 (m.lookup key) n
   | .not _ a, hf => by
     intro n
     have ih := eval_refines_spec_ord ord hord a (by simpa [fragO] using hf) n
@@ -799,7 +823,7 @@ def m0 : EEnv := { lookup := fun k => if k == [120] then .int 3 else .undefined,
 def s0 : Spec.Eval.Env := { vars := [([120], .int 3)], loops := [], ij := none, globals := [] }
 
 theorem rel0 : EnvRel m0 s0 := by
-  refine ⟨fun k _ => ?_, fun k => ?_⟩
+  refine ⟨fun k _ => ?_, fun k => ?_, rfl⟩
   · by_cases h : k = [120]
     · subst h; rfl
     · have h' : ([120] == k) = false := by simpa using fun e => h e.symm
@@ -842,7 +866,7 @@ def m1 : EEnv := { lookup := fun k => if k == [120] then vx else .undefined, ij 
 def s1 : Spec.Eval.Env := { vars := [([120], absV vx)], loops := [], ij := none, globals := [] }
 
 theorem rel1 : EnvRel m1 s1 := by
-  refine ⟨fun k _ => ?_, fun k => ?_⟩
+  refine ⟨fun k _ => ?_, fun k => ?_, rfl⟩
   · by_cases h : k = [120]
     · subst h; rfl
     · have h' : ([120] == k) = false := by simpa using fun e => h e.symm
@@ -863,6 +887,15 @@ example : ∃ mv n', evalE m1 xaeb 7 = .ok mv n' ∧ absV mv = .str [66] :=
   (eval_refines_spec_partial rel1 xaeb (by decide) 7).1 (.str [66]) (by rfl)
 example : evalE m1 (.dataRef 0 [120] (.cons (.key 0 false [122, 122]) (.cons (.key 0 false [121]) .nil))) 7 = .err :=
   (eval_refines_spec_partial rel1 _ (by decide) 7).2 (by rfl)
+
+/-! `$ij.u.v` with injected data {u: {v: 'J'}}; and `$ij` without injected data is an error on both sides -/
+def mIj : EEnv := { m1 with ij := some (9, [([117], .map 8 [([118], .str [74])])]) }
+def sIjEnv : Spec.Eval.Env := { s1 with ij := some [([117], .map [([118], .str [74])])] }
+theorem relIj : EnvRel mIj sIjEnv := ⟨rel1.vars, rel1.globals, rfl⟩
+def ijuv : Expr := .dataRef 0 [105, 106] (.cons (.key 0 false [117]) (.cons (.key 0 false [118]) .nil))
+example : ∃ mv n', evalE mIj ijuv 7 = .ok mv n' ∧ absV mv = .str [74] :=
+  (eval_refines_spec_partial relIj ijuv (by decide) 7).1 (.str [74]) (by rfl)
+example : evalE m1 ijuv 7 = .err := (eval_refines_spec_partial rel1 ijuv (by decide) 7).2 (by rfl)
 example : evalE m1 (.dataRef 0 [120] (.cons (.key 0 false [97]) (.cons (.key 0 false [107]) .nil))) 7 = .err :=
   (eval_refines_spec_partial rel1 _ (by decide) 7).2 (by rfl)
 
